@@ -751,6 +751,11 @@ pub fn run(args: &Args) -> i32 {
     if args.digest_mode {
         // C19 digest mode: reduced deterministic workload
         units.retain(|u| u.secs != SecSet::All || u.name == "all_seconds_1968_1971" || u.n_days <= 3);
+        for u in units.iter_mut() {
+            if u.name == "around_2000_16_cycles" {
+                u.n_days /= 4;
+            }
+        }
     }
     let mut total = run_units(&cyc, c02, &units, &rec);
     total = total.merge(sweep_all_cycles(&cyc, c02, thorough, &rec));
